@@ -49,6 +49,19 @@ declared={
  'C16': E('OracleDate.try_from_ndt','NDT.of_oracle_date','OracleDate.from_timestamp','OracleDate.new','OracleDate.add_days','OracleDate.sub_days','OracleDate.sub_date','Timestamp.oracle_add_days','Timestamp.oracle_sub_days','OracleDate.add_interval_dt'),
  'C17': E('date2julian','julian2date','Date.extract','Timestamp.extract','Timestamp.date','Timestamp.time','Date.partial_cmp_timestamp','Date.eq_timestamp','Date.and_zero_time','OracleDate.sub_date'),
 }
+# only theorems that exist in the proof files are listed (a function that is translated but whose theorems are not written
+# yet is tied by the correspondence only)
+proved=set()
+for fn in ['lean/SqlDt/Lemmas/'+x for x in json.load(open('tools/tie_files.json'))]:
+    ns=[]
+    for l in open(fn):
+        m=re.match(r"\s*namespace\s+(\S+)", l)
+        if m: ns.append(m.group(1)); continue
+        m=re.match(r"\s*end\s+(\S+)", l)
+        if m and ns and ns[-1]==m.group(1): ns.pop(); continue
+        m=re.match(r"(?:@\[[^\]]*\]\s*)?theorem\s+(\S+)", l)
+        if m: proved.add('.'.join(ns+[m.group(1)]))
+missing=sorted((alleq|set(safe_of_eq.values()))-proved)
 tie={}
 for i in range(1,20):
     pid='C%02d'%i
@@ -69,6 +82,7 @@ for i in range(1,20):
     safes = set(safe_of_eq[e] for e in eqs if e in safe_of_eq)
     if pid in ('C02', 'C03'):
         safes |= set(safe_of_eq.values())
-    tie[pid]=sorted(eqs) + sorted(safes)
+    tie[pid]=sorted(e for e in eqs if e in proved) + sorted(x for x in safes if x in proved)
 json.dump(tie, open('tools/tie_map.json','w'), indent=1, sort_keys=True)
 for k,v in tie.items(): print(k,len(v))
+print('translated functions without a theorem (tied by the correspondence only):', len(missing)); print(' '.join(missing))
